@@ -42,13 +42,18 @@ PROPS = {
             {"mode": "crashfaults", "quick": {"runs": 35 * 40}, "thorough": {"runs": 35 * 3000}},
             {"mode": "crash-R", "quick": {"runs": 1400}, "thorough": {"runs": 105000}},
             {"mode": "crashfaults-R", "quick": {"runs": 700}, "thorough": {"runs": 70000}},
+            {"mode": "stalelock", "quick": {"runs": 33 * 40}, "thorough": {"runs": 33 * 2000}},
+            {"mode": "stalelock-R", "quick": {"runs": 33 * 30}, "thorough": {"runs": 33 * 2000}},
             {"mode": "directed", "quick": {"runs": 64}, "thorough": {"runs": 64}},
         ],
         "rule": ("run index = shape x position: for every generated small transaction shape (1-4 keys over 1-3 regions, put/delete/insert/"
                  "lock-only, optimistic/pessimistic, with sampled companions: seed writer, readers, conflicting writer, split) the committing "
                  "client is crashed at every RPC position 0..15 of Commit in both variants (request never delivered / delivered but unanswered) "
                  "and at TSO positions 0..2; positions beyond the real request count are no-ops and are not counted as non-trivial; "
-                 "non-trivial = the planned crash actually fired; distinct = distinct canonical RPC traces"),
+                 "non-trivial = the planned crash actually fired; distinct = distinct canonical RPC traces; modes stalelock / stalelock-R: the victim is a "
+                 "pessimistic transaction whose first lock statement fails on a blocked key and whose clean-up messages are lost (stale locks naming the OLD "
+                 "primary stay behind), which goes on with a new primary; crash positions 0..15 of its Commit x 2 variants + no crash are enumerated per shape; "
+                 "one surviving client first writes to the stale keys (resolving the stale locks) and later reads the keys of the crashed Commit"),
         "real_vs_stub": REAL_TXN,
         "assumptions": ["client crash = permanent total partition of that client from TiKV and PD (DESIGN.md 2.4)",
                         "modes crash / crashfaults: backend M (mocktikv), 2PC only; modes *-R: reference backend, 2PC / async commit / 1PC", "position space is enumerated completely per shape, shapes and companions are sampled"],
